@@ -696,6 +696,8 @@ class ExponentialBinning(BinningBase):
         super(ExponentialBinning, self).__init__(
             includes_right_edge=includes_right_edge, adaptive=adaptive
         )
+        if log_width <= 0:
+            raise ValueError("Logarithmic bin width must be > 0.")
         self._log_min = log_min
         self._log_width = log_width
         self._bin_count = bin_count
